@@ -98,7 +98,8 @@ theorem failed_tag_contributes_nothing {ρ : Type} (ev : Ctl.Evalr ρ) (fuel : N
     (he : (Ctl.genNode ev fuel (Ctl.registerEarly ev st t.node) t.node).2 = .error er)
     (hl : (er.isLimit || er == .fuel) = false) :
     Ctl.onePass ev (fuel + 1) st (t :: ts) outs bb remain =
-      Ctl.onePass ev fuel (Ctl.genNode ev fuel (Ctl.registerEarly ev st t.node) t.node).1 ts outs bb (t :: remain) := by
+      Ctl.onePass ev fuel (Ctl.genNode ev fuel (Ctl.registerEarly ev st t.node) t.node).1 ts outs bb
+        ({ t with failGen := some (Ctl.genNode ev fuel (Ctl.registerEarly ev st t.node) t.node).1.gen } :: remain) := by
   rw [Ctl.onePass]
   simp only [hs, he, hl, Bool.false_eq_true, if_false]
 
